@@ -13,7 +13,6 @@ Variable V : variant.
 Notation store := (@store T).
 Notation tens_ufunc := (tens_ufunc cast V).
 Notation disc_ufunc := (disc_ufunc cast V).
-Notation kept_axes := (kept_axes V).
 Notation operand := (@operand T).
 Notation npsem := (@npsem T).
 
@@ -96,9 +95,9 @@ Proof.
   destruct (Z.eqb_spec (Z.of_nat i) z) as [E|E], (Nat.eqb_spec i (Z.to_nat z)) as [E'|E']; auto; lia.
 Qed.
 
-Lemma znorm_nonneg nd z : (0 <= z)%Z -> znorm V nd z = z.
-Proof. intros Hz. unfold znorm. destruct (Z.ltb_spec z 0); [lia|]. rewrite andb_false_r. reflexivity. Qed.
-Lemma map_znorm_nonneg nd l : Forall (fun z => (0 <= z)%Z) l -> map (znorm V nd) l = l.
+Lemma znorm_nonneg nd z : (0 <= z)%Z -> znorm nd z = z.
+Proof. intros Hz. unfold znorm. destruct (Z.ltb_spec z 0); [lia|]. reflexivity. Qed.
+Lemma map_znorm_nonneg nd l : Forall (fun z => (0 <= z)%Z) l -> map (znorm nd) l = l.
 Proof. induction 1; cbn; [reflexivity|]. rewrite znorm_nonneg by assumption. congruence. Qed.
 
 (* for NON-NEGATIVE axes (any rank, any subset, int or tuple) the code keeps
@@ -117,20 +116,26 @@ Proof.
   apply filter_ext. intros i. rewrite zmem_nonneg by (constructor; auto). reflexivity.
 Qed.
 
-(* REPAIRED variant: the same for every axis NumPy accepts, negative ones
-   included (-nd <= z < nd): the kept axes are those of the normalised axes *)
+(* the same for EVERY axis NumPy accepts, negative ones included
+   (-nd <= z < nd): the kept axes are those of the normalised axes *)
 Definition znormalize (nd : nat) (z : Z) : nat := Z.to_nat (if (z <? 0)%Z then z + Z.of_nat nd else z).
-Lemma kept_axes_tuple_repaired nd (l : list Z) :
-  v_negaxis V = true ->
+Lemma kept_axes_tuple_all nd (l : list Z) :
   Forall (fun z => (- Z.of_nat nd <= z)%Z) l ->
   kept_axes nd (AxTuple l) = np_kept nd (map (znormalize nd) l).
 Proof.
-  intros HV Hl. unfold Model.kept_axes, np_kept. apply filter_ext. intros i. f_equal.
-  assert (Hnn : Forall (fun z => (0 <= z)%Z) (map (znorm V nd) l)).
-  { apply Forall_map. eapply Forall_impl; [|exact Hl]. cbn. intros z Hz. unfold znorm. rewrite HV. cbn.
+  intros Hl. unfold Model.kept_axes, np_kept. apply filter_ext. intros i. f_equal.
+  assert (Hnn : Forall (fun z => (0 <= z)%Z) (map (znorm nd) l)).
+  { apply Forall_map. eapply Forall_impl; [|exact Hl]. cbn. intros z Hz. unfold znorm.
     destruct (Z.ltb_spec z 0); lia. }
-  rewrite zmem_nonneg by exact Hnn. rewrite map_map. f_equal. apply map_ext. intros z.
-  unfold znorm, znormalize. rewrite HV. reflexivity.
+  rewrite zmem_nonneg by exact Hnn. rewrite map_map. f_equal.
+Qed.
+Lemma kept_axes_int_all nd (z : Z) : (- Z.of_nat nd <= z)%Z ->
+  kept_axes nd (AxInt z) = np_kept nd [znormalize nd z].
+Proof.
+  intros Hz. unfold Model.kept_axes, np_kept. apply filter_ext. intros i. f_equal.
+  assert (Hnn : Forall (fun z => (0 <= z)%Z) [znorm nd z]).
+  { constructor; [|constructor]. unfold znorm. destruct (Z.ltb_spec z 0); lia. }
+  rewrite zmem_nonneg by exact Hnn. reflexivity.
 Qed.
 
 (* axis absent: NumPy reduces axis 0 *)
@@ -236,7 +241,6 @@ Proof.
     repeat split; auto; discriminate.
   - (* outer *)
     destruct ins as [|[| |d1 i1| |] [|[| |d2 i2| |] [|? ?]]]; try discriminate.
-    match type of Hd with (if ?c then Err _ else _) = _ => destruct c; try discriminate end.
     match type of Hd with match mk_dspace ?a ?t with _ => _ end = _ =>
       destruct (mk_dspace a t) as [rs'|] eqn:Em; try discriminate end.
     apply mk_dspace_ok in Em as [-> Hn]. inversion Hd; subst. split; [exact Hr|].
@@ -244,9 +248,9 @@ Proof.
     eexists; split; [reflexivity|]. cbn. eexists; exists 0%nat.
     repeat split; try discriminate; auto.
     + destruct (ts_w (ds_ts d1)), (ts_w (ds_ts d2)); cbn; auto;
-        destruct (v_boolouter V && dt_eqb (ts_dt spc) DBool); cbn; auto.
+        destruct (dt_eqb (ts_dt spc) DBool); cbn; auto.
     + destruct (ts_w (ds_ts d1)), (ts_w (ds_ts d2)); cbn; auto;
-        destruct (v_boolouter V && dt_eqb (ts_dt spc) DBool); cbn; auto.
+        destruct (dt_eqb (ts_dt spc) DBool); cbn; auto.
   - (* at: an array-valued result cannot occur *)
     discriminate.
 Qed.
